@@ -128,6 +128,10 @@ def gen_spec(rng, knobs) -> dict:
         ctx = {"name": f"c{ci}", "aliases": [f"c{ci}x"] if rng.random() < 0.6 and via != "anon" else [],
                "via": via, "defaults": {}, "rules": [], "redefs": [], "bad": None}
         nrules = rng.randint(0, 4) if len(nodes) >= 2 else 0
+        redef_only = bool(redefinable) and rng.random() < 0.2 and (via == "file" or knobs["numtype"] == "float")
+        if redef_only:
+            nrules = 0
+            ctx["redef_only"] = True
         for _ in range(nrules):
             if used_edges and rng.random() < 0.35:
                 si, di = rng.choice(used_edges)  # collide with another context's rule
@@ -142,7 +146,7 @@ def gen_spec(rng, knobs) -> dict:
             ctx["rules"].append(r)
             used_edges.append((si, di))
         # redefinitions (python-made contexts parse them as float: only in float worlds)
-        if redefinable and rng.random() < 0.5 and (via == "file" or knobs["numtype"] == "float"):
+        if redefinable and (redef_only or rng.random() < 0.5) and (via == "file" or knobs["numtype"] == "float"):
             for v in rng.sample(redefinable, rng.randint(1, min(2, len(redefinable)))):
                 _, vdim = table.root_of_unit(v)
                 ref = dict(table.units[v]["ref"]) if rng.random() < 0.5 else monomial_for(vdim)
@@ -156,7 +160,7 @@ def gen_spec(rng, knobs) -> dict:
 
     def add_edge(si, di):
         nonlocal rid
-        cands = [c for c in contexts if not any(r.get("_e") == (si, di) for r in c["rules"])]
+        cands = [c for c in contexts if not c.get("redef_only") and not any(r.get("_e") == (si, di) for r in c["rules"])]
         if not cands:
             return
         c = rng.choice(cands)
@@ -201,6 +205,11 @@ def gen_spec(rng, knobs) -> dict:
                 ctx["redefs"].append({"name": "nosuch", "factor": "3", "ref": {base[0]: 1}})
                 ctx["bad"] = "undef"
             contexts.append(ctx)
+    # a context without any rule at all (redefinitions only) has no marker either: its place in the
+    # stack shows only through what it does to the others
+    for ctx in contexts:
+        if ctx["redefs"] and not ctx["rules"] and not ctx["bad"] and (ctx.get("redef_only") or rng.random() < 0.6):
+            ctx["nomarker"] = True
     n = len(contexts)
     # marker rules: one private per context, one shared per pair (reveals relative order)
     pair_index = {}
@@ -209,13 +218,15 @@ def gen_spec(rng, knobs) -> dict:
             pair_index[(i, j)] = len(pair_index)
     kk = 0
     for i, ctx in enumerate(contexts):
+        if ctx.get("nomarker"):
+            continue
         py = ctx["via"] != "file"
         par = [rng.choice(PARAMS), 1] if rng.random() < 0.7 else None
         ctx["rules"].append({"id": f"m{i}", "src": {"[mk]": i + 1}, "dst": {"[obs]": 1}, "bidir": False,
                              "kind": "lin", "K": str(3 + i), "par": par,
                              "M": {"uobs": 1, "umk": -(i + 1)}, "py": py and rng.random() < 0.5, "marker": True})
         for (a, b), pi in pair_index.items():
-            if i in (a, b):
+            if i in (a, b) and not contexts[a].get("nomarker") and not contexts[b].get("nomarker"):
                 kk += 1
                 e = 10 + pi
                 ctx["rules"].append({"id": f"p{a}_{b}_{i}", "src": {"[mk]": e}, "dst": {"[obs]": 1},
@@ -311,6 +322,10 @@ class ProgGen:
                 for end in (r["src"], r["dst"]):
                     v = self.table.dimvec(end)
                     self.by_dim.setdefault(vec_key(v), []).append({bod[d]: e for d, e in v.items()})
+        for pair in spec.get("hot_pairs", ()):
+            for end in pair:
+                v = self.table.dimvec(end)
+                self.by_dim.setdefault(vec_key(v), []).append({bod[d]: e for d, e in v.items()})
         self.dimkeys = sorted(self.by_dim)
 
     def sid(self):
@@ -1068,7 +1083,7 @@ class _Run:
             latest[i] = (pos, p)
         obs = []
         for i, c in enumerate(ctxs):
-            if c.get("dropped"):
+            if c.get("dropped") or c.get("nomarker"):
                 continue
             m = next(r for r in c["rules"] if r["id"] == f"m{i}")
             got = self._convert_marker(ureg, i + 1)
@@ -1089,7 +1104,7 @@ class _Run:
             for b in range(a + 1, n):
                 e = 10 + pi
                 pi += 1
-                if ctxs[a].get("dropped") or ctxs[b].get("dropped"):
+                if ctxs[a].get("dropped") or ctxs[b].get("dropped") or ctxs[a].get("nomarker") or ctxs[b].get("nomarker"):
                     continue
                 got = self._convert_marker(ureg, e)
                 act = [x for x in (a, b) if x in latest]
